@@ -9,7 +9,6 @@ import (
 	"os"
 	"strings"
 	"sync"
-	"sync/atomic"
 	"time"
 
 	"github.com/pingcap/kvproto/pkg/pdpb"
@@ -77,6 +76,21 @@ func (c *cluster) refresh(dcs []string) bool {
 		}
 	}
 	return len(c.holder) == len(dcs)
+}
+
+// transfer asks `from` (which serves dc) to hand the allocator of dc to the member `to` - pd-ctl "transfer allocator". The new
+// leader of an earlier transfer removes the next-leader key right AFTER it started serving: a request that arrives in between
+// is refused with a conflict and simply sent again, as an operator would.
+func transfer(from *node, dc string, to uint64) error {
+	var err error
+	for try := 0; try < 40; try++ {
+		err = from.s.GetTSOAllocatorManager().TransferAllocatorForDCLocation(dc, to)
+		if err == nil || !strings.Contains(err.Error(), "ErrEtcdTxnConflict") {
+			return err
+		}
+		time.Sleep(50 * time.Millisecond)
+	}
+	return err
 }
 
 func waitFor(d time.Duration, f func() bool) bool {
@@ -182,7 +196,7 @@ func prepareCluster() *prepared {
 			if !serves(T, dc) {
 				continue
 			}
-			if err := T.s.GetTSOAllocatorManager().TransferAllocatorForDCLocation(dc, L.s.GetMember().ID()); err != nil {
+			if err := transfer(T, dc, L.s.GetMember().ID()); err != nil {
 				return "transfer " + dc + ": " + err.Error()
 			}
 			if !waitFor(75*time.Second, func() bool { return serves(L, dc) && !serves(T, dc) }) {
@@ -467,185 +481,6 @@ func clusterPhase(R *res.Result, p *prepared) {
 	joinDuringGlobal(R, c, T, jt, global, localAns, suffix)
 	joinCase = jt
 	newLeaderMissesDC(R, c, T, jt)
-	if thoroughTier { // three allocator transfers: a minute and a half
-		if P := c.leader(); P != nil || waitFor(30*time.Second, func() bool { return c.leader() != nil }) {
-			idleMemberTakesAllocator(R, c, c.leader())
-		}
-	}
-}
-
-var thoroughTier bool
-
-// idleMemberTakesAllocator (Go side only, thorough tier, last scenario): T is the PD leader; member X is drained (whatever it serves moves
-// to the third member), then one allocator is moved TO X, a member the PD leader has no other reason to talk to. The new
-// allocator leader starts from the stored window of its dc-location, i.e. ahead of the clocks; the PD leader learns about it
-// by watching etcd, a little later. A Global request in between either waits / is refused, or it is synchronised with the new
-// allocator leader: every Global answer must be greater than every Local answer that was complete before the request began.
-func idleMemberTakesAllocator(R *res.Result, c *cluster, T *node) {
-	skip := func(why string) { R.Notes = append(R.Notes, "idle-member scenario incomplete: "+why) }
-	t0 := time.Now()
-	defer func() { R.CountN("cluster:idle-member:seconds", int(time.Since(t0).Seconds())) }()
-	if T == nil || c.leader() != T {
-		skip("PD leader changed")
-		return
-	}
-	var X, L *node
-	for _, x := range c.nodes {
-		if x == T {
-			continue
-		}
-		if X == nil {
-			X = x
-		} else {
-			L = x
-		}
-	}
-	var dcs []string
-	for dc := range T.s.GetTSOAllocatorManager().GetClusterDCLocations() {
-		dcs = append(dcs, dc)
-	}
-	count := func(x *node) (n int) {
-		for _, dc := range dcs {
-			if serves(x, dc) {
-				n++
-			}
-		}
-		return
-	}
-	if count(X) > count(L) {
-		X, L = L, X
-	}
-	// a transfer leaves its next-leader key behind until the lease of the key runs out (up to 90 s) unless the new leader
-	// removed it: a dc-location whose key still stands cannot be transferred again yet
-	pending := func(dc string) string {
-		ctx, cancel := context.WithTimeout(context.Background(), 5*time.Second)
-		defer cancel()
-		r, err := T.s.GetClient().Get(ctx, T.s.GetTSOAllocatorManager().VerifNextLeaderKey(dc))
-		if err != nil || len(r.Kvs) == 0 {
-			return ""
-		}
-		return string(r.Kvs[0].Value)
-	}
-	move := func(dc string, from, to *node) bool {
-		if v := pending(dc); v != "" {
-			if v == fmt.Sprint(to.s.GetMember().ID()) {
-				return true // already on its way there
-			}
-			skip("an earlier transfer of " + dc + " is still pending")
-			return false
-		}
-		if err := from.s.GetTSOAllocatorManager().TransferAllocatorForDCLocation(dc, to.s.GetMember().ID()); err != nil {
-			skip("transfer " + dc + ": " + err.Error())
-			return false
-		}
-		return true
-	}
-	for _, dc := range dcs {
-		if serves(X, dc) {
-			if !move(dc, X, L) || !waitFor(75*time.Second, func() bool { return serves(L, dc) && !serves(X, dc) }) {
-				skip("allocator of " + dc + " did not leave the member to be idle")
-				return
-			}
-		}
-	}
-	dc := ""
-	for _, d := range dcs {
-		if serves(L, d) && pending(d) == "" {
-			dc = d
-			break
-		}
-	}
-	if dc == "" || count(X) != 0 {
-		skip("topology")
-		return
-	}
-	tam := T.s.GetTSOAllocatorManager()
-	// Local requests of dc go to whoever serves it, in batches (the logical part of dc runs ahead of the others); Global
-	// requests go to T; both as fast as they go, from before the move until half a second after the idle member serves
-	type rec struct {
-		b, e int64
-		ts   pdpb.Timestamp
-	}
-	var mu sync.Mutex
-	var locals, globals []rec
-	answered, refused := 0, 0
-	var stopFlag int32
-	var wg sync.WaitGroup
-	wg.Add(2)
-	go func() {
-		defer wg.Done()
-		for atomic.LoadInt32(&stopFlag) == 0 {
-			var h *node
-			for _, x := range []*node{L, X} {
-				if serves(x, dc) {
-					h = x
-				}
-			}
-			if h == nil {
-				time.Sleep(time.Millisecond)
-				continue
-			}
-			b := time.Now().UnixNano()
-			l, err := h.s.GetTSOAllocatorManager().HandleTSORequest(dc, 500)
-			if err != nil {
-				continue
-			}
-			mu.Lock()
-			locals = append(locals, rec{b, time.Now().UnixNano(), l})
-			mu.Unlock()
-			time.Sleep(200 * time.Microsecond)
-		}
-	}()
-	go func() {
-		defer wg.Done()
-		for atomic.LoadInt32(&stopFlag) == 0 {
-			b := time.Now().UnixNano()
-			g, err := tam.HandleTSORequest(tso.GlobalDCLocation, 1)
-			mu.Lock()
-			if err != nil {
-				refused++
-			} else {
-				answered++
-				globals = append(globals, rec{b, time.Now().UnixNano(), g})
-			}
-			mu.Unlock()
-			time.Sleep(300 * time.Microsecond)
-		}
-	}()
-	time.Sleep(300 * time.Millisecond)
-	ok := move(dc, L, X) && waitFor(75*time.Second, func() bool { return serves(X, dc) })
-	if ok {
-		time.Sleep(500 * time.Millisecond)
-	}
-	atomic.StoreInt32(&stopFlag, 1)
-	wg.Wait()
-	if !ok {
-		skip("allocator of " + dc + " did not arrive at the idle member")
-		return
-	}
-	R.Count("cluster:idle-member-takes-an-allocator")
-	R.CountN("cluster:idle-member:local-answers", len(locals))
-	// a Local answer that was complete before a Global request began is below the Global answer (locals are in order of time)
-	top := -1
-	li := 0
-scan:
-	for _, g := range globals {
-		for li < len(locals) && locals[li].e < g.b {
-			if top < 0 || tsLess(locals[top].ts, locals[li].ts) {
-				top = li
-			}
-			li++
-		}
-		if top >= 0 && !tsLess(locals[top].ts, g.ts) {
-			l := locals[top].ts
-			R.Violate("C05:global-not-above-earlier-local:allocator-moved-to-a-member-that-serves-nothing-else",
-				fmt.Sprintf("the allocator of %s moved to a member that serves nothing else while both kinds of requests kept coming; a Local request had been answered (%d,%d) before a Global request began that was answered (%d,%d): not greater", dc, l.Physical, l.Logical, g.ts.Physical, g.ts.Logical),
-				map[string]interface{}{"dc": dc, "local": []int64{l.Physical, l.Logical}, "global": []int64{g.ts.Physical, g.ts.Logical}})
-			break scan
-		}
-	}
-	R.CountN("cluster:idle-member:global-answered", answered)
-	R.CountN("cluster:idle-member:global-refused", refused)
 }
 
 // joinDuringGlobal: dc-6 joins, on a member the request does not talk to, while a Global request is in flight (slow
@@ -673,7 +508,7 @@ func joinDuringGlobal(R *res.Result, c *cluster, T *node, jt *joinTrace, global 
 		if !serves(X, dc) {
 			continue
 		}
-		if err := X.s.GetTSOAllocatorManager().TransferAllocatorForDCLocation(dc, L.s.GetMember().ID()); err != nil {
+		if err := transfer(X, dc, L.s.GetMember().ID()); err != nil {
 			skip("transfer " + dc + ": " + err.Error())
 			return
 		}
